@@ -24,6 +24,12 @@ GRzz(k) == [m |-> Diag(<<OWPow(-k), OWPow(k), OWPow(k), OWPow(-k)>>), e |-> 0]
 GU3(k, p, l) == [m |-> G1(C2(k), ONeg(OMul(S2(k), OWPow(l))), OMul(S2(k), OWPow(p)), OMul(C2(k), OWPow(p + l))), e |-> 2]
 \* user-registered gate of the test-suite kind: ry(b) * rx(a)
 GRyRx(a, b) == [m |-> OMatMul(GRy(b).m, GRx(a).m), e |-> 4]
+\* the Grover-type oracles of numqi.query (user-registered gates of kind 'custom', acting on the WHOLE register of 2 nq qubits read as
+\* |x>|y>): the amplitude of |x>|x> is multiplied by the phase, everything else is untouched.  GroverOracle: phase -1;
+\* FractionalGroverOracle(theta): phase exp(-i pi theta), theta = k/4 on the grid, i.e. w^-k.
+OracleDiag(nq, ph, other) == Diag([r \in 1..(2^(2 * nq)) |-> IF (r - 1) \div (2^nq) = (r - 1) % (2^nq) THEN ph ELSE other])
+GOracle(nq) == [m |-> OracleDiag(nq, ONeg(OOne), OOne), e |-> 0]
+GFOracle(nq, k) == [m |-> OracleDiag(nq, OWPow(-k), OOne), e |-> 0]
 \* generic matrices handed to single/double/triple_qubit_gate and controlled_*: some non-unitary on purpose
 GenM(name) ==
   CASE name = "A1" -> [m |-> G1(OOne, <<2,0,0,0>>, OI, OZero), e |-> 0]                 \* [[1,2],[i,0]]  non-unitary
@@ -42,6 +48,7 @@ GateMat(g) ==
     [] g.op = "rzz" -> GRzz(g.par[1])
     [] g.op \in {"u3", "cu3"} -> GU3(g.par[1], g.par[2], g.par[3])
     [] g.op = "ry_rx" -> GRyRx(g.par[1], g.par[2])
+    [] g.op = "oracle" -> GOracle(Len(g.tg) \div 2) [] g.op = "foracle" -> GFOracle(Len(g.tg) \div 2, g.par[1])
     [] g.op \in {"single", "double", "triple", "csingle", "cdouble"} -> GenM(g.mat)
 IsUnitaryG(G) == OMatMul(G.m, ODagger(G.m)) = OMatScale(<<2^G.e, 0, 0, 0>>, OIdent(Len(G.m)))
 =============================================================================
